@@ -53,6 +53,40 @@ SOURCES = {
 }
 
 
+# Whole modules (docstrings and comments ignored): what the operators of a property run through besides the mirrored
+# functions — public wrappers, view constructors, sort(), Comparable, asindices/expr, the source classes.  The dynamic
+# part of a check vouches for the behaviour of this source text as a whole; any edit to it breaks the obligation until
+# the check has been re-run on the new text and the snapshot retaken.
+_ALL_TRANSFORM = ['transform/%s.py' % m for m in ('basics', 'conversions', 'dedup', 'fills', 'hashjoins', 'headers', 'joins', 'maps',
+                                                   'reductions', 'regex', 'reshape', 'selects', 'setops', 'sorts', 'unpacks', 'validation')]
+_CORE = ['comparison.py', 'util/base.py', 'config.py']
+_UTIL = ['util/materialise.py', 'util/timing.py', 'util/vis.py', 'util/lookups.py', 'util/counting.py', 'util/random.py']
+_IO = ['io/base.py', 'io/sources.py', 'io/csv.py', 'io/csv_py3.py', 'io/pickle.py', 'io/text.py', 'io/json.py', 'io/html.py']
+T_ = lambda *ms: ['transform/%s.py' % m for m in ms]
+FILES = {
+    'C01': _CORE + T_('sorts', 'hashjoins') + ['util/materialise.py', 'util/random.py', 'io/json.py', 'io/db.py', 'io/sources.py'],
+    'C02': _CORE + _ALL_TRANSFORM + _UTIL + _IO,
+    'C03': _CORE + _ALL_TRANSFORM + _UTIL,
+    'C04': _CORE + ['compat.py'] + T_('sorts', 'selects', 'joins'),
+    'C05': _CORE + T_('sorts', 'basics'),
+    'C06': _CORE + T_('joins', 'basics', 'sorts'),
+    'C07': _CORE + T_('hashjoins', 'joins', 'sorts') + ['util/lookups.py'],
+    'C08': _CORE + T_('setops', 'sorts', 'basics'),
+    'C09': _CORE + T_('reductions', 'sorts', 'basics', 'dedup') + ['util/counting.py'],
+    'C10': _CORE + T_('dedup', 'sorts'),
+    'C11': _CORE + T_('sorts', 'joins', 'setops', 'dedup', 'reductions', 'reshape', 'maps', 'basics'),
+    'C12': _CORE + T_('basics', 'headers', 'conversions', 'fills', 'maps', 'regex') + ['util/materialise.py'],
+    'C13': _CORE + T_('selects', 'regex', 'basics', 'headers'),
+    'C14': _CORE + T_('reshape', 'unpacks', 'regex', 'sorts') + ['io/json.py', 'io/base.py', 'util/materialise.py'],
+    'C15': ['util/base.py'] + _IO,
+    'C16': ['util/base.py', 'util/timing.py', 'util/materialise.py'] + _IO,
+    'C17': ['util/base.py', 'io/db.py', 'io/db_utils.py', 'io/db_create.py'],
+    'C18': _CORE + T_('sorts') + ['io/json.py'],
+    'C19': _CORE + T_('conversions', 'maps'),
+    'C20': _CORE + _ALL_TRANSFORM + ['util/materialise.py', 'util/lookups.py', 'util/counting.py'],
+}
+
+
 def strip_docstrings(node):
     for n in ast.walk(node):
         if isinstance(n, (ast.FunctionDef, ast.ClassDef, ast.Module)) and n.body and isinstance(n.body[0], ast.Expr) \
@@ -65,9 +99,18 @@ def fingerprint_all():
     """-> {property: {module.name: fingerprint}}"""
     out = {}
     cache = {}
-    for pid, items in SOURCES.items():
+    for pid in sorted(set(SOURCES) | set(FILES)):
         out[pid] = {}
-        for rel, names in items:
+        for rel in FILES.get(pid, []):
+            path = os.path.join(REPO, 'petl', rel)
+            if not os.path.exists(path):
+                raise TranslationError('%s not found' % rel)
+            if rel not in cache:
+                cache[rel] = open(path).read()
+            if ('file', rel) not in cache:
+                cache[('file', rel)] = hashlib.sha1(ast.unparse(strip_docstrings(ast.parse(cache[rel]))).encode()).hexdigest()[:16]
+            out[pid]['file:' + rel] = cache[('file', rel)]
+        for rel, names in SOURCES.get(pid, []):
             if rel not in cache:
                 cache[rel] = open(os.path.join(REPO, 'petl', rel)).read()
             tree = ast.parse(cache[rel])
